@@ -118,7 +118,7 @@ func (c *c08) charset1(spec c08Msg, b *c08Built, name string) {
 			return "", 1
 		case call != nil && f != nil && f.Blocks != nil && c.P.InModule(f) && depth < 2 && f.Signature.Results().Len() == 1:
 			// a shared encoding helper: its returns, on the paths the selection leaves alive
-			fr2 := &codec.Frame{Call: call, Callee: f, Parent: fr}
+			fr2 := codec.ChildFrame(call, f, fr)
 			view := c08NewBranchView(f, func(cond ssa.Value) (bool, bool) { m, s := test(cond, fr2); return m, s == uniSel })
 			helperTests += view.tests
 			total := 0
